@@ -39,6 +39,13 @@ def main():
     do_fix = "--fixes" in sys.argv or "--seeded" not in sys.argv
     do_seed = "--seeded" in sys.argv or "--fixes" not in sys.argv
     assert clean(), "/repo is not clean"
+    part = os.environ.get("SELFTEST_PART", "0/1")   # "i/n": only the items whose running index is i modulo n (parallel runs on separate worktrees)
+    pi, pn = [int(x) for x in part.split("/")]
+    counter = [0]
+
+    def mine():
+        counter[0] += 1
+        return (counter[0] - 1) % pn == pi
     import shutil, tempfile
     bak = tempfile.mkdtemp(prefix="evbak-", dir="/var/tmp")
     shutil.copytree(os.path.join(ROOT, "evidence"), os.path.join(bak, "evidence"))
@@ -47,6 +54,8 @@ def main():
         for d in sorted(glob.glob(os.path.join(ROOT, "seeded", "*"))):
             name = os.path.basename(d)
             if only and only not in name:
+                continue
+            if not mine():
                 continue
             m = json.load(open(os.path.join(d, "meta.json")))
             ids = m.get("detected_by") or [m["property"]]
@@ -79,6 +88,8 @@ def main():
                 continue
             if only and only not in commit and only not in prop:
                 continue
+            if not mine():
+                continue
             rc, out = sh("git -C %s show %s -- . ':!*_test.go' | git -C %s apply -R" % (REPO, commit, REPO))
             if rc != 0:
                 results.append(dict(kind="fix", name=commit, property=prop, error="cannot reverse-apply (later commits touch the same lines): " + out[-200:]))
@@ -95,7 +106,7 @@ def main():
     shutil.rmtree(os.path.join(ROOT, "evidence"), ignore_errors=True)
     shutil.copytree(os.path.join(bak, "evidence"), os.path.join(ROOT, "evidence"))
     shutil.rmtree(bak, ignore_errors=True)
-    json.dump(dict(at=time.strftime("%Y-%m-%dT%H:%M:%S"), results=results), open(os.path.join(ROOT, "selftest_result.json"), "w"), indent=1)
+    json.dump(dict(at=time.strftime("%Y-%m-%dT%H:%M:%S"), results=results), open(os.path.join(ROOT, "selftest_result.json" if pn == 1 else "selftest_result.%d.json" % pi), "w"), indent=1)
     missed = [r for r in results if not r.get("detected")]
     print("%d cases, %d not detected" % (len(results), len(missed)))
     return 1 if missed else 0
